@@ -311,9 +311,34 @@ class Case:
                     if how == "obj":
                         key = cont[i]
                     nc = "-" if n is None else nameclass(n)
+                    # witnesses: entities elsewhere in the file whose NAME is the id of the member about to be deleted (a legal,
+                    # UUID-looking name).  "Delete exactly that entity" - they must all survive.
+                    witnesses = []
+                    if rng.random() < 0.4 and how != "obj":
+                        try:
+                            if self.label != "file.sections":
+                                ws = f.create_section(id_, "witness")
+                                witnesses.append(("file.sections", lambda: [x.name for x in f.sections]))
+                            else:
+                                ws = f.sections[0] if False else f.create_block(id_, "witness")
+                                witnesses.append(("file.blocks", lambda: [x.name for x in f.blocks]))
+                            if isinstance(ws, nix.Section):
+                                ws.create_property(id_, [1])
+                                witnesses.append(("section.props", lambda ws=ws: [x.name for x in f.sections[id_].props]))
+                            wb = f.blocks["blk"] if "blk" in f.blocks else None
+                            if wb is not None and self.label not in ("block.sources",):
+                                wsrc = wb.create_source("wsrc_%d" % si, "witness").create_source(id_, "witness")
+                                witnesses.append(("nested source", lambda wb=wb, si=si: [x.name for x in wb.sources["wsrc_%d" % si].sources]))
+                            ctx.count("witnesses_named_after_deleted_id", len(witnesses))
+                        except Exception as ex:
+                            self.bad("legal_name_refused_%s" % type(ex).__name__, "id_of_another_entity", name=id_, error=repr(ex)[:200])
+                            witnesses = []
                     try:
                         del cont[key]
                         model.pop(i)
+                        for where, names in witnesses:
+                            if id_ not in names():
+                                self.bad("delete_removed_entity_named_after_the_id:%s" % where, "id_of_another_entity", deleted_id=id_, how=how)
                     except Exception as ex:
                         self.bad("delete_by_%s_raises_%s" % (how, type(ex).__name__), nc, name=str(n)[:40], error=repr(ex)[:200])
                         break
